@@ -13,13 +13,17 @@ C04.fold   Label eq/cmp/hash and the canonical forms fold case with the same
 C04.repr   Hash/Eq/Ord of every name type reduce to label-wise operations
            (Label::hash, name_eq, name_cmp) and never hash or compare the raw
            octets (representation independence: flat / compressed / chained).
+C04.kind   per field, the *kind* of value fed to the hasher is the kind of
+           value == compares: a field compared as CharStr (ASCII
+           case-insensitive) or as a name (label-wise, case-insensitive) is
+           never hashed as raw octets, and vice versa.
 C04.canon  canonical_cmp field order equals canonical compose order (shared
            signature engine, see sigs.py) and Record::canonical_cmp order.
 """
 import re
 from collections import OrderedDict
 
-from mirlib import strip, deep_strip, show, walk, const_value
+from mirlib import strip, deep_strip, show, walk, const_value, resolve_captures
 from rulelib import return_assignments
 import sigs
 
@@ -45,6 +49,9 @@ def run(ctx):
     rule_fold(ctx, F)
     rule_repr(ctx, F)
     rule_canon(ctx, F)
+    rule_kind(ctx, F)
+    import c03
+    c03.rule_flag(ctx, F)   # representation independence needs a truthful `compressed` flag (as_flat_slice fast paths)
 
 
 # ---------------------------------------------------------------------------
@@ -66,9 +73,12 @@ def _getter_field(F, path):
     return None
 
 
-def fields_used(F, b, argn, adt):
+def fields_used(F, b, argn, adt, caps=None, depth=0):
     """Set of field names of `adt` that body b reads through parameter argn
-    (directly, via variant downcasts, or via simple getters)."""
+    (directly, via variant downcasts, or via simple getters).  Closures
+    created in b that capture the parameter (`a.cmp(b).then_with(|| ...)`) are
+    followed: inside them the captured upvar plays the parameter's role
+    (`caps` = set of capture indices that hold the parameter)."""
     out = set()
 
     def scan_place(pl):
@@ -89,8 +99,19 @@ def fields_used(F, b, argn, adt):
 
     tuple_alias = {}  # local -> {tuple index: True} when the element is (a ref to) the parameter
 
+    def cap_rest(pl):
+        """(*_1).k... in a closure whose capture k holds the parameter -> remaining projections"""
+        if not caps or pl[0] != 1:
+            return None
+        i = 1
+        while i < len(pl) and pl[i] == "*":
+            i += 1
+        if i < len(pl) and isinstance(pl[i], list) and pl[i][0] == "." and pl[i][1] in caps:
+            return list(pl[i + 1:])
+        return None
+
     # locals that alias the parameter (copies / reborrows of self)
-    alias = {argn}
+    alias = set() if caps else {argn}
     changed = True
     while changed:
         changed = False
@@ -103,7 +124,10 @@ def fields_used(F, b, argn, adt):
                         src = rv[1][1]
                     elif rv[0] in ("ref", "deref"):
                         src = rv[2] if rv[0] == "ref" else rv[1]
-                    if src is not None and src[0] in alias and all(p == "*" for p in src[1:]):
+                    if src is None:
+                        continue
+                    cr = cap_rest(src)
+                    if (src[0] in alias and all(p == "*" for p in src[1:])) or (cr is not None and all(p == "*" for p in cr)):
                         if len(b.defs().get(st[1][0], [])) == 1:
                             alias.add(st[1][0])
                             changed = True
@@ -115,11 +139,16 @@ def fields_used(F, b, argn, adt):
                     if o[0] in ("c", "m") and o[1][0] in alias and all(p == "*" for p in o[1][1:]):
                         tuple_alias.setdefault(st[1][0], {})[i] = True
 
-    def untuple(pl):
-        """(_t.i ...) where _t is a tuple holding the parameter at index i -> rooted at argn"""
+    def norm(pl):
+        """place rooted at the parameter -> [argn, projections...]; else None"""
+        if pl[0] in alias:
+            return [argn] + list(pl[1:])
         if pl[0] in tuple_alias and len(pl) > 1 and isinstance(pl[1], list) and pl[1][0] == "." \
                 and pl[1][1] in tuple_alias[pl[0]]:
             return [argn] + list(pl[2:])
+        cr = cap_rest(pl)
+        if cr is not None:
+            return [argn] + cr
         return None
 
     for blk in b.blocks:
@@ -142,26 +171,32 @@ def fields_used(F, b, argn, adt):
                 places = [rv[2][1]] if rv[2][0] in ("c", "m") else []
             elif rv[0] == "agg":
                 places = [o[1] for o in rv[2] if o[0] in ("c", "m")]
+                if rv[1][0] == "closure" and depth < 3:
+                    ccaps = set()
+                    for i, o in enumerate(rv[2]):
+                        if o[0] in ("c", "m"):
+                            n = norm(o[1])
+                            if n is not None and all(p == "*" for p in n[1:]):
+                                ccaps.add(i)
+                    cb = F.bodies.get(rv[1][1])
+                    if ccaps and cb is not None:
+                        out |= fields_used(F, cb, argn, adt, caps=ccaps, depth=depth + 1)
             for pl in places:
-                if pl[0] in alias:
-                    scan_place([argn] + list(pl[1:]))
-                else:
-                    u = untuple(pl)
-                    if u:
-                        scan_place(u)
+                n = norm(pl)
+                if n is not None:
+                    scan_place(n)
         t = blk["t"]
         if t["k"] == "call":
             for a in t["args"]:
-                if a[0] in ("c", "m") and a[1][0] in alias:
-                    scan_place([argn] + list(a[1][1:]))
-                elif a[0] in ("c", "m"):
-                    u = untuple(a[1])
-                    if u:
-                        scan_place(u)
+                if a[0] in ("c", "m"):
+                    n = norm(a[1])
+                    if n is not None:
+                        scan_place(n)
             # getter calls on self
             if t["args"] and t["fn"]:
                 a0 = t["args"][0]
-                if a0[0] in ("c", "m") and a0[1][0] in alias and all(p == "*" for p in a0[1][1:]):
+                n0 = norm(a0[1]) if a0[0] in ("c", "m") else None
+                if n0 is not None and all(p == "*" for p in n0[1:]):
                     g = _getter_field(F, t["fn"])
                     if g:
                         out.add(g)
@@ -169,12 +204,10 @@ def fields_used(F, b, argn, adt):
                         out.add("<self>")
                     else:
                         out.add("m:" + t["fn"].split("::")[-1])
-        elif t["k"] == "switch" and t["d"][0] in ("c", "m") and t["d"][1][0] in alias:
-            scan_place([argn] + list(t["d"][1][1:]))
         elif t["k"] == "switch" and t["d"][0] in ("c", "m"):
-            u = untuple(t["d"][1])
-            if u:
-                scan_place(u)
+            n = norm(t["d"][1])
+            if n is not None:
+                scan_place(n)
     return out
 
 
@@ -323,16 +356,8 @@ def rule_pair(ctx, F):
             b = _impl_fn(F, im, fname)
             if b is None or b.nargs != 2:
                 continue
-            sites = []
-            for bi in sorted(b.reachable_blocks()):
-                for st in b.blocks[bi]["s"]:
-                    if st[0] == "=" and st[2][0] == "bin" and st[2][1] in ("Eq", "Ne", "Lt", "Le", "Gt", "Ge"):
-                        sites.append((bi, st[2][1], b.term_of_operand(st[2][2]), b.term_of_operand(st[2][3])))
-                t = b.blocks[bi]["t"]
-                if t["k"] == "call" and len(t["args"]) == 2 and t["fn"] and COMPARATORS.search(t["fn"]):
-                    sites.append((bi, t["fn"].split("::")[-1], b.term_of_operand(t["args"][0]), b.term_of_operand(t["args"][1])))
             seen = {}
-            for bi, what, x, y in sites:
+            for sb, bi, what, x, y in sigs.compare_sites(b, F, COMPARATORS):
                 px, py = access_path(b, x), access_path(b, y)
                 if px is None or py is None:
                     continue
@@ -353,11 +378,11 @@ def rule_pair(ctx, F):
                 if same_root:
                     ctx.ob(R, b, site, False,
                            "%s compares %s with %s of the *same* operand (arg%d): the other value is ignored"
-                           % (fname, ".".join(lx), ".".join(ly), px[0]), b.where(bi))
+                           % (fname, ".".join(lx), ".".join(ly), px[0]), sb.where(bi))
                 else:
                     ctx.ob(R, b, site, same_path,
                            "%s compares field %s of one operand with field %s of the other"
-                           % (fname, ".".join(lx), ".".join(ly)), b.where(bi))
+                           % (fname, ".".join(lx), ".".join(ly)), sb.where(bi))
     ctx.call_sites += n
 
 
@@ -523,9 +548,9 @@ def rule_repr(ctx, F):
     for tr in ("ToName", "ToRelativeName"):
         b = F.one_body(r"^base::name::traits::%s::name_cmp$" % tr)
         if ctx.anchor(R, "%s::name_cmp" % tr, b):
-            callees = [(t["fn"] or "") for _, t in b.calls()]
-            back = any(re.search(r"DoubleEndedIterator::next_back$|Iterator::rev$", c) for c in callees)
-            lab = any(c.endswith("core::cmp::Ord::cmp") and t["targs"] and "Label" in t["targs"][0] for (_, t), c in zip(b.calls(), callees))
+            deep = sigs.callees_deep(F, b)
+            back = any(re.search(r"DoubleEndedIterator::next_back$|Iterator::rev$", t["fn"] or "") for _, _, t in deep)
+            lab = any((t["fn"] or "").endswith("core::cmp::Ord::cmp") and t["targs"] and "Label" in t["targs"][0] for _, _, t in deep)
             ctx.ob(R, b, "compares labels from the root leftwards", back and lab,
                    "name_cmp must compare labels right-to-left (RFC 4034 6.1) using Label::cmp")
 
@@ -540,19 +565,11 @@ def rule_canon(ctx, F):
     # Record::canonical_cmp: class, owner (name_cmp), rtype, data
     b = F.one_body(r"^<base::record::Record<N, D> as base::cmp::CanonicalOrd<base::record::Record<NN, DD>>>::canonical_cmp$")
     if ctx.anchor(R, "<Record as CanonicalOrd>::canonical_cmp", b):
-        order = []
-        for bi in sorted(b.reachable_blocks(), key=lambda x: x):
-            t = b.blocks[bi]["t"]
-            if t["k"] == "call" and len(t["args"]) == 2 and t["fn"]:
-                px = access_path(b, b.term_of_operand(t["args"][0]))
-                if px and px[0] == 1 and px[1]:
-                    order.append((bi, px[1][0], t["fn"].split("::")[-1]))
-        # order by dominance
         seq = []
-        for bi, f, fn in order:
-            if f not in [s[0] for s in seq]:
-                seq.append((f, fn, bi))
-        seq.sort(key=lambda s: sum(1 for o in seq if b.dominates(o[2], s[2])))
+        for sb, bi, what, x, y in sigs.compare_sites(b, F):
+            px = access_path(b, x)
+            if px and px[0] == 1 and px[1] and px[1][0] not in [s[0] for s in seq]:
+                seq.append((px[1][0], what, bi))
         got = [(f, fn) for f, fn, _ in seq]
         want_fields = ["class", "owner", "rtype()", "data"]
         ctx.ob(R, b, "order class, owner, type, rdata", [g[0] for g in got] == want_fields,
@@ -564,3 +581,82 @@ def rule_canon(ctx, F):
         ctx.ob(R, b, "rdata compared with canonical_cmp", bool(dat) and dat[0][1] == "canonical_cmp",
                "record data must be compared with canonical_cmp, found %s" % dat)
     sigs.check_canonical_order(ctx, F, R)
+
+
+# ---------------------------------------------------------------------------
+# per-field kind agreement between Hash and PartialEq
+# ---------------------------------------------------------------------------
+
+PRIM_INT = {"u8", "u16", "u32", "u64", "u128", "usize", "i8", "i16", "i32", "i64", "isize", "bool", "char"}
+
+
+def _is_generic_param(ty):
+    ty = ty.replace("&", "").strip()
+    return re.match(r"^[A-Z][A-Za-z0-9]*$", ty) is not None and ty not in ("Self",)
+
+
+def _kind_sites(F, b, want_hash):
+    """{top field: {(sub path, what, type)}} for Hash::hash calls (want_hash) or comparison sites."""
+    out = {}
+    if want_hash:
+        for sb, bi, t in sigs.callees_deep(F, b, depth=0):
+            if (t["fn"] or "").endswith("Hash::hash") and t["args"] and t["targs"]:
+                x = sb.term_of_operand(t["args"][0])
+                if sb is not b:
+                    x = resolve_captures(F, sb, x)
+                ap = access_path(b, x)
+                if ap and ap[0] == 1 and ap[1]:
+                    out.setdefault(ap[1][0], set()).add((tuple(_norm_path(ap[1][1:])), "hash", t["targs"][0]))
+    else:
+        for sb, bi, what, x, y in sigs.compare_sites(b, F, COMPARATORS):
+            ap = access_path(b, x)
+            t = sb.blocks[bi]["t"]
+            ty = t["targs"][0] if t["k"] == "call" and t["targs"] and t["fn"] and t["fn"].split("::")[-1] == what else "raw"
+            if ap and ap[0] == 1 and ap[1]:
+                out.setdefault(ap[1][0], set()).add((tuple(_norm_path(ap[1][1:])), what, ty))
+    return out
+
+
+def rule_kind(ctx, F):
+    R = "C04.kind"
+    ctx.floor(R, 100)
+    for im in F.impls:
+        adt = im["self_adt"]
+        if not adt or not SCOPE.match(adt) or im["trait"] != HASH or im.get("derived"):
+            continue
+        hb = _impl_fn(F, im, "hash")
+        if hb is None:
+            continue
+        hs = _kind_sites(F, hb, True)
+        for im2 in F.impls:
+            if im2["self_adt"] != adt or im2["trait"] != EQ or not _same_type_impl(im2):
+                continue
+            eb = _impl_fn(F, im2, "eq")
+            if eb is None:
+                continue
+            es = _kind_sites(F, eb, False)
+            for f in sorted(set(hs) & set(es)):
+                for (hsub, _, hty) in sorted(hs[f]):
+                    cands = [(esub, what, ety) for (esub, what, ety) in es[f] if esub == hsub]
+                    if not cands:
+                        continue
+                    oks = []
+                    for esub, what, ety in cands:
+                        h, e = sigs.ty_short(hty), sigs.ty_short(ety)
+                        if what == "eq_ignore_ascii_case":
+                            ok = True  # folding agreement is C04.fold's business
+                        elif ety == "raw":
+                            ok = h in PRIM_INT
+                        elif what in ("name_eq", "name_cmp"):
+                            ok = h not in ("[u8]", "u8") and not h.startswith("[")
+                        elif _is_generic_param(hty) or _is_generic_param(ety):
+                            ok = not (h in ("[u8]", "u8") or e in ("[u8]", "u8")) or h == e
+                        else:
+                            ok = h == e
+                        oks.append((ok, what, e))
+                    ok = any(o for o, _, _ in oks)
+                    ctx.ob(R, hb, "field %s%s hashed as it is compared" % (f, ("." + ".".join(hsub)) if hsub else ""), ok,
+                           "%s: field %s is hashed as %s but == compares it as %s: values that compare equal "
+                           "(e.g. differing only in ASCII case) hash differently"
+                           % (adt.split("::")[-1], f, sigs.ty_short(hty), ", ".join("%s via %s" % (e, w) for _, w, e in oks)),
+                           nontrivial=any(sigs.ty_short(x[2]) not in PRIM_INT for x in cands))
